@@ -65,4 +65,26 @@ theorem toyScroll_timeline :
   exact ⟨st, m, h1, h2, fun u =>
     decoded_scroll_timeline zc_epsLaws zc_groupLaws scrollClampLaws_zc _ st m h1 h2 (Or.inr hm) hg u⟩
 
+/-! the constant-mode hypothesis is needed (finding F15: a `Mode` record after `[TimingPoints]` lines): the line at 10 is
+applied in osu! mode — multiplier 2 goes into the difficulty point, the effect point keeps scroll speed 1 and is dropped as
+redundant — and the map ends up in mania. -/
+
+def modeChangeLines : List Str :=
+  [str "osu file format v14", str "[TimingPoints]", str "10,-50,4,1,0,100,0,0", str "[General]", str "Mode: 3"]
+
+theorem mode_change_counterexample :
+    (frame (timingPointsDecoder (F := ZC) (P := ZC)) modeChangeLines).general.mode = .mania ∧
+    (tpLog ZC ZC modeChangeLines).map (fun p => (p.1, p.2.time, p.2.speedMultiplier)) = [(.osu, ⟨10⟩, ⟨2⟩)] ∧
+    ((((frame (timingPointsDecoder (F := ZC) (P := ZC)) modeChangeLines).finish.2.difficultyPointAt ⟨10⟩).map
+      (·.sliderVelocity)).getD (1 : ZC)) = ⟨2⟩ ∧
+    clamp ((((frame (timingPointsDecoder (F := ZC) (P := ZC)) modeChangeLines).finish.2.effectPointAt ⟨10⟩).map
+      (·.scrollSpeed)).getD (1 : ZC)) (0.1 : ZC) (10 : ZC) = ⟨1⟩ := by
+  rw [tpLog, C05.frame_eq_spec, C05.frame_eq_spec]
+  decide
+
+/-- so `LogGood` fails of that file (its only entry was applied in osu! mode), as it must. -/
+theorem mode_change_not_good : ¬ LogGood .mania (tpLog ZC ZC modeChangeLines) := by
+  rw [tpLog, C05.frame_eq_spec]
+  decide
+
 end Rosu.C02
